@@ -580,13 +580,14 @@ def srv_datasets(annot):
 
 
 def srv_wellformed(annot):
-    """the property's datasets: d1 < ... < dN, every date listed once (what add_quote in date order builds)"""
+    """the property's datasets: d1 < ... < dN, which is what add_quote calls in non-decreasing date order build
+    (C07.dataset_loaded_in_date_order_is_increasing); a date may be quoted by several calls (more symbols, revisions)"""
     seen = {}
     for op in annot:
         t = op.split()
         if t[0] == "Q" and int(t[3]) > 0:
             seen.setdefault(t[1], []).append(int(t[2]))
-    return all(v == sorted(set(v)) for v in seen.values())
+    return all(v == sorted(v) for v in seen.values())
 
 
 class C07(Prop):
@@ -893,18 +894,24 @@ class C04(Prop):
 
     def monitor(self, stream, annot, impl):
         net = Fraction(0)
+        gross = Fraction(0)    # sum of the magnitudes booked so far: binary64 rounding scales with it, not with the balance
         for k, t, costs, prev, cur in walk_broker(annot, impl):
             if prev is None:
                 net = Fraction(0)
+                gross = Fraction(0)
             if t[0] == "DEP" and cur.ev[0] == "DOK":
                 net += fr(t[1])
+                gross += abs(fr(t[1]))
             if t[0] == "WD" and cur.ev[0] == "WOK":
                 net -= fr(t[1])
-            if t[0] == "LIQ" and prev is not None and not fdec(t[1]) > fdec(prev.cash):
+                gross += abs(fr(t[1]))
+            pcash = prev.cash if prev is not None else "f0"     # a freshly built broker holds no cash
+            if t[0] == "LIQ" and not fdec(t[1]) > fdec(pcash):
                 # a liquidation request of at most the free cash debits cash on its failure paths (outside the property)
-                net += fr(cur.cash) - fr(prev.cash)
+                net += fr(cur.cash) - fr(pcash)
+                gross += abs(fr(cur.cash) - fr(pcash))
             want = net + sum((fr(x["value"]) if x["side"] == "S" else -fr(x["value"])) for x in cur.trades)
-            scale = float(sum(abs(fr(x["value"])) for x in cur.trades) + abs(net))
+            scale = float(sum(abs(fr(x["value"])) for x in cur.trades) + gross)
             if not close(fr(cur.cash), want, 1e-9, scale):
                 yield (k, "cash-ledger", f"cash {fdec(cur.cash)} but deposits-withdrawals-buys+sells = {float(want)}")
                 return
@@ -1152,7 +1159,7 @@ class C10(Prop):
         for k, t, costs, prev, cur in walk_broker(annot, impl):
             if prev is None or prev.state != "Ready":
                 continue
-            whole = all(fdec(v) > 0 and fdec(v) == int(fdec(v)) for v in prev.hold.values())
+            whole = all(0 < fdec(v) < float('inf') for v in prev.hold.values())   # since repair F10 the clauses hold for fractional positions too
             if t[0] == "LIQ" and fdec(t[1]) > fdec(prev.cash) and whole and cur.ev[0] != "PANIC":
                 if cur.ev[0] == "WOK":
                     r = self.check_liq(k, fr(t[1]), prev, cur, "request")
@@ -1165,7 +1172,7 @@ class C10(Prop):
                         return
             if t[0] == "CHECK" and cur.ev != ["PANIC"] and fdec(cur.cash) < 0 and cur.state == "Ready":
                 # automatic rebalancing requested exactly -cash + 1000 after reconciliation; holdings did not change since
-                whole2 = all(fdec(v) > 0 and fdec(v) == int(fdec(v)) for v in cur.hold.values())
+                whole2 = all(0 < fdec(v) < float('inf') for v in cur.hold.values())
                 if whole2:
                     req = Fraction(fdec(cur.cash) * -1.0 + 1000.0)
                     fake_prev = BState(cur.raw)
@@ -1352,7 +1359,11 @@ class C12(Prop):
                 if (side == "B") != buy:
                     yield (k, "never-opposite-direction", f"{sym}: gap {gap} but order {mine[0][0]} {n}")
                     return
-                if n < 1 or n != int(n):
+                if exact is None:
+                    # net price exactly 0 (a per-share fee equal to the quote): budget / 0 is not a number, the
+                    # property's size is undefined there and the theorems assume 0 < net price (DESIGN §13)
+                    continue
+                if n != n or n in (float("inf"), float("-inf")) or n < 1 or n != int(n):
                     yield (k, "whole-shares-never-zero-sized", f"{sym}: {n}")
                     return
                 if exact is not None and not (Fraction(n) <= exact or close(n, exact, 1e-9)) or (exact is not None and exact - Fraction(n) >= 1 and not close(exact - Fraction(n), 1, 1e-9)):
